@@ -314,9 +314,14 @@ theorem getEnum_idx (views : Nat → Option FileView) : ∀ (fuel : Nat) (seen :
                 cases hr : td.ref with
                 | none =>
                   rw [hr] at h
-                  have := getEnum_idx views fuel _ j td.rootName vals idx h
-                  rw [hv] at this
-                  exact this
+                  simp only at h
+                  by_cases hcm : inCategoryMap td.rootName = true
+                  · rw [if_pos hcm] at h
+                    simp only [Except.ok.injEq, Prod.mk.injEq, reduceCtorEq, false_and] at h
+                  · rw [if_neg hcm] at h
+                    have := getEnum_idx views fuel _ j td.rootName vals idx h
+                    rw [hv] at this
+                    exact this
                 | some r =>
                   rw [hr] at h
                   simp only at h
